@@ -188,7 +188,7 @@ def check(run, replay=None):
     bad, diffs = [], []
     results_of = {}
     # batches: traces of faulted runs can be long; nothing but counters and failures is kept
-    BATCH = 300
+    BATCH = 120
     pending = [(legal, lres)] + [(allscn[i:i + BATCH], None) for i in range(len(legal), len(allscn), BATCH)]
     for batch, ires in pending:
         if ires is None:
